@@ -415,6 +415,28 @@ def currentOf (l : Ledger) : Option Rec :=
       | some d => some d
       | none => if lastRec.status = .failed || lastRec.status = .superseded then some lastRec else none
 
+/-- `Upgrade.failRelease` and what `releasingUpgrade` does before calling it: (re-record the
+original release,) mark the new revision failed, clean up, and with --atomic roll back to the
+highest revision that is superseded or deployed. -/
+def failUpgradeOn (fl : UpgradeFlags) (f fNested : Faults) (cur rel : Rec) (rerecord : Bool) (s : St) : St × Outcome :=
+  let afterRe : Dec × St := if rerecord then stUpdate s cur else (.ok, s)
+  match afterRe with
+  | (.crash, s2) => (s2, .crashed)
+  | (_, s2) =>
+    match stUpdate s2 { rel with status := .failed } with
+    | (.crash, s3) => (s3, .crashed)
+    | (_, s3) =>
+      if fl.cleanupOnFail && f.cleanup != .ok && rerecord then
+        (s3, if f.cleanup = .crash then .crashed else .error)
+      else if fl.atomic then
+        let cands := s3.ledger.filter fun r => r.status = .superseded || r.status = .deployed
+        if cands.isEmpty then (s3, .error)
+        else
+          let (s4, o) := rollbackOn { version := maxRev cands, disableHooks := fl.disableHooks, nHooks := fl.nHooks, maxHistory := 0 }
+            fNested s3
+          (s4, if o = .crashed then .crashed else .error)
+      else (s3, .error)
+
 def upgrade (fl : UpgradeFlags) (f fNested : Faults) (payload : Nat) (l : Ledger) : St × Outcome :=
   let s : St := { ledger := l, decs := f.st }
   match f.pre with
@@ -436,27 +458,9 @@ def upgrade (fl : UpgradeFlags) (f fNested : Faults) (payload : Nat) (l : Ledger
       | (.crash, s1) => (s1, .crashed)
       | (.fail, s1) => (s1, .error)
       | (.ok, s1) =>
-        -- releasingUpgrade; `failUpgrade rerecord`: (re-record the original,) mark failed, cleanup, atomic rollback
+        -- releasingUpgrade; on a failure: `failUpgrade` (with the original re-recorded when the failure came after the update)
         let nh := if fl.disableHooks then 0 else fl.nHooks
-        let failUpgrade : Bool → St → St × Outcome := fun rerecord s =>
-          let afterRe : Dec × St := if rerecord then stUpdate s cur else (.ok, s)
-          match afterRe with
-          | (.crash, s2) => (s2, .crashed)
-          | (_, s2) =>
-            match stUpdate s2 { rel with status := .failed } with
-            | (.crash, s3) => (s3, .crashed)
-            | (_, s3) =>
-              if fl.cleanupOnFail && f.cleanup != .ok && rerecord then
-                (s3, if f.cleanup = .crash then .crashed else .error)
-              else if fl.atomic then
-                -- roll back to the highest revision that is superseded or deployed
-                let cands := s3.ledger.filter fun r => r.status = .superseded || r.status = .deployed
-                if cands.isEmpty then (s3, .error)
-                else
-                  let (s4, o) := rollbackOn { version := maxRev cands, disableHooks := fl.disableHooks, nHooks := fl.nHooks, maxHistory := 0 }
-                    fNested s3
-                  (s4, if o = .crashed then .crashed else .error)
-              else (s3, .error)
+        let failUpgrade : Bool → St → St × Outcome := failUpgradeOn fl f fNested cur rel
         match hookPhase s1 rel nh f.preHook with
         | (.crash, s2) => (s2, .crashed)
         | (.fail, s2) => failUpgrade false s2
